@@ -7,6 +7,20 @@ mod kv;
 
 use mcx::*;
 
+/// Vacuity guard: every letter class must have fired — unless violations were
+/// found (a violation ends its branch, so letters behind it may be unreachable;
+/// the verdict is then the violation, not a machinery failure).
+pub fn require_labels(r: &Report, labels: &[&str]) {
+    if !r.violations.is_empty() {
+        return;
+    }
+    for l in labels {
+        if !r.label_hits.contains_key(*l) {
+            machinery_failure(&format!("{}: vacuous exploration, letter {l} never fired", r.subject));
+        }
+    }
+}
+
 fn main() {
     let cli = Cli::parse();
     match cli.property.as_str() {
